@@ -1227,6 +1227,7 @@ def cpl(c, F, G = None, h = None, dims = None, A = None, b = None,
                             blas.copy(dz2, dz20)
                             blas.copy(lmbda, lmbda0)
                             blas.copy(lmbdasq, lmbdasq0)
+                            sigs0, sigz0 = +sigs, +sigz
                             dsdz0 = dsdz
                             sigma0, eta0 = sigma, eta
                             xcopy(rx, rx0);  ycopy(ry, ry0)
@@ -1275,6 +1276,8 @@ def cpl(c, F, G = None, h = None, dims = None, A = None, b = None,
                             blas.copy(ds20, ds2)
                             blas.copy(dz20, dz2)
                             blas.copy(lmbda0, lmbda)
+                            blas.copy(sigs0, sigs)
+                            blas.copy(sigz0, sigz)
                             dsdz = dsdz0
                             sigma, eta = sigma0, eta0
                             relaxed_iters = -1
